@@ -639,4 +639,168 @@ Section Pot.
     - unfold poll_call. rewrite Ek, Hp. cbn [fst snd]. split; [lia|]. intros. split; [reflexivity|discriminate].
     - unfold poll_call. rewrite Ek, Hp. cbn [fst snd]. split; [lia|]. intros. split; [reflexivity|discriminate].
   Qed.
+
+  (* ---------------------------------------------------------------- polling every call *)
+  Definition nonew s : Prop := forall j k, nth_error (calls s) j = Some k -> c_phase k <> PNew.
+
+  Lemma Mb_poll_calls n : forall s i acc s2 dn,
+    poll_calls s i n acc = (s2, dn) ->
+    (Mb s2 <= Mb s)%nat /\ (nonew s -> Mb s2 = Mb s -> s2 = s /\ dn = acc).
+  Proof.
+    induction n as [|n IH]; intros s i acc s2 dn H.
+    - cbn in H. injection H as <- <-. split; [lia|auto].
+    - rewrite poll_calls_step in H.
+      destruct (nth_error (calls s) i) as [c|] eqn:Ec; [|apply IH in H; exact H].
+      destruct (is_live (c_phase c)) eqn:Hl; [|apply IH in H; exact H].
+      destruct (Mb_poll_call s i) as [L1 S1].
+      destruct (poll_call s i) as [r s1] eqn:Ep. cbn [fst snd] in L1, S1.
+      apply IH in H. destruct H as [L2 S2]. split; [lia|]. intros Hn E.
+      destruct (S1 c Ec (Hn i c Ec) ltac:(lia)) as [-> Nd].
+      assert (Er : match r with CDone o => acc ++ [(i, o)] | _ => acc end = acc).
+      { destruct r; try reflexivity. exfalso. eapply Nd; reflexivity. }
+      rewrite Er in S2. apply S2; assumption.
+  Qed.
+
+  Lemma pc_nonew n : forall s i acc s2 dn,
+    poll_calls s i n acc = (s2, dn) ->
+    forall j k2, (i <= j < i + n)%nat -> nth_error (calls s2) j = Some k2 -> c_phase k2 <> PNew.
+  Proof.
+    induction n as [|n IH]; intros s i acc s2 dn H j k2 Hj Ek2; [lia|].
+    rewrite poll_calls_step in H.
+    (* the state after the step at i, in which call i is not PNew *)
+    assert (Step : exists s1 acc1, poll_calls s1 (S i) n acc1 = (s2, dn) /\
+                     forall k1, nth_error (calls s1) i = Some k1 -> c_phase k1 <> PNew).
+    { destruct (nth_error (calls s) i) as [c|] eqn:Ec.
+      - destruct (is_live (c_phase c)) eqn:Hl.
+        + destruct (poll_call_shape s i c Ec) as [[Hq Hc]|[[Hq Hc]|(k' & Sk & Hk)]].
+          * rewrite Hq in H. exists s, acc. split; [exact H|]. intros k1 E1. rewrite Ec in E1.
+            injection E1 as <-. destruct Hc as [Hc|[Hc _]]; congruence.
+          * congruence.
+          * destruct (poll_call s i) as [r s1] eqn:Ep. cbn [snd] in Sk.
+            eexists s1, _. split; [exact H|]. intros k1 E1.
+            rewrite (SN_nth _ _ _ _ _ Ec Sk) in E1. injection E1 as <-.
+            intro X. rewrite X in Hk. cbn in Hk. lia.
+        + exists s, acc. split; [exact H|]. intros k1 E1. rewrite Ec in E1. injection E1 as <-.
+          intro X. rewrite X in Hl. discriminate.
+      - exists s, acc. split; [exact H|]. intros k1 E1. congruence. }
+    destruct Step as (s1 & acc1 & H1 & N1).
+    destruct (Nat.eq_dec j i) as [->|Hne]; [|eapply (IH _ _ _ _ _ H1 j); [lia|exact Ek2]].
+    pose proof (PM_poll_calls n s1 (S i) acc1) as P. rewrite H1 in P. cbn [fst] in P.
+    destruct (PM_nth_back _ _ _ _ P Ek2) as (k1 & E1).
+    pose proof (proj2 P _ _ _ E1 Ek2) as Hr. specialize (N1 k1 E1).
+    intro X. rewrite X in Hr. cbn in Hr. destruct (c_phase k1); cbn in Hr; try lia. congruence.
+  Qed.
+
+  (* ---------------------------------------------------------------- one round *)
+  Lemma list_eqb_N_refl (l : list N) : list_eqb N.eqb l l = true.
+  Proof. induction l as [|x r IH]; cbn; [reflexivity|]. rewrite N.eqb_refl, IH. reflexivity. Qed.
+
+  Lemma digest_eqb_refl s : digest_eqb (digest s) (digest s) = true.
+  Proof.
+    unfold digest, digest_eqb. rewrite !Nat.eqb_refl, list_eqb_N_refl, Bool.eqb_reflx. cbn [andb].
+    destruct (terminal s) as [[]|]; destruct (finished s) as [[|[]]|]; reflexivity.
+  Qed.
+
+  Lemma digest_SameD s s' : SameD s s' -> digest s' = digest s.
+  Proof. intros [E1 E2 E3 E4 E5 E6 E7 E8]. unfold digest. rewrite E1, E2, E3, E4, E5, E6, E7, E8. reflexivity. Qed.
+
+  Lemma round_pot s o s2 o2 q :
+    round stp sfuel s o = (s2, o2, q) -> Inv s -> NW s ->
+    (Mb s2 <= Mb s)%nat /\ nonew s2 /\ (nonew s -> q = false -> (Mb s2 < Mb s)%nat).
+  Proof.
+    unfold round. intros H I Hnw.
+    destruct (disp_half stp sfuel s o) as [s1 o1] eqn:Ed.
+    destruct (poll_calls s1 0 (length (calls s1)) []) as [s2' dn] eqn:Ec.
+    apply pair_equal_spec in H. destruct H as [H Hq].
+    apply pair_equal_spec in H. destruct H as [<- <-].
+    destruct (disp_half_pot _ _ _ _ Ed I) as [L1 S1].
+    destruct (Mb_poll_calls _ _ _ _ _ _ Ec) as [L2 S2].
+    pose proof (PM_poll_calls (length (calls s1)) s1 0 []) as P2. rewrite Ec in P2. cbn [fst] in P2.
+    split; [lia|]. split.
+    - intros j k2 Ek2. eapply (pc_nonew _ _ _ _ _ _ Ec j); [|exact Ek2].
+      split; [lia|]. cbn. rewrite <- (proj1 P2). apply nth_error_Some. congruence.
+    - intros Hn Hf. destruct (Nat.eq_dec (Mb s2') (Mb s)) as [E|E]; [exfalso|lia].
+      destruct (S1 ltac:(lia)) as (SD & Ls & Lr).
+      assert (Hn1 : nonew s1) by (unfold nonew; rewrite (sd_calls _ _ SD); exact Hn).
+      destruct (S2 Hn1 ltac:(lia)) as [-> ->].
+      rewrite (digest_SameD _ _ SD), digest_eqb_refl in Hq. cbn [length so_sent so_read] in Hq.
+      rewrite Ls, Lr, !Nat.eqb_refl in Hq. cbn in Hq. congruence.
+  Qed.
+
+  Lemma noisy_nonew n : forall s o, Inv s -> NW s -> nonew s -> all_noisy n s o -> (n <= Mb s)%nat.
+  Proof.
+    induction n as [|n IH]; intros s o I Hnw Hn A; [lia|]. cbn [all_noisy] in A.
+    destruct (round_Inv stp sfuel s o I Hnw) as [I2 P2].
+    destruct (round stp sfuel s o) as [[s2 o2] q] eqn:Er. cbn [fst] in I2, P2. destruct A as [Hq A].
+    destruct (round_pot _ _ _ _ _ Er I Hnw) as (L & N2 & St).
+    specialize (IH s2 o2 I2 (NW_PM _ _ P2 Hnw) N2 A). specialize (St Hn Hq). lia.
+  Qed.
+
+  Lemma noisy_any n s o : Inv s -> NW s -> all_noisy n s o -> (n <= Mb s + 1)%nat.
+  Proof.
+    intros I Hnw A. destruct n as [|n]; [lia|]. cbn [all_noisy] in A.
+    destruct (round_Inv stp sfuel s o I Hnw) as [I2 P2].
+    destruct (round stp sfuel s o) as [[s2 o2] q] eqn:Er. cbn [fst] in I2, P2. destruct A as [Hq A].
+    destruct (round_pot _ _ _ _ _ Er I Hnw) as (L & N2 & _).
+    pose proof (noisy_nonew n s2 o2 I2 (NW_PM _ _ P2 Hnw) N2 A). lia.
+  Qed.
+
+  Lemma Mb_bound s : (Mb s + 1 < rounds_of s + length (st_inbox (tr s)))%nat.
+  Proof.
+    unfold Mb, rounds_of. pose proof (W_le (calls s)).
+    assert (onone (terminal s) <= 1)%nat by (destruct (terminal s); cbn; lia).
+    assert (onone (finished s) <= 1)%nat by (destruct (finished s); cbn; lia).
+    assert (ofalse (rx_closed s) <= 1)%nat by (destruct (rx_closed s); cbn; lia).
+    lia.
+  Qed.
+
+  (* on a reachable state the settle of `wstep` never runs out of rounds *)
+  Lemma settle_no_fuel s s' r :
+    Inv s -> NW s ->
+    settle stp sfuel (rounds_of s + length (st_inbox (tr s))) s sobs0 = (s', r) -> so_fuel r = false.
+  Proof.
+    intros I Hnw E. destruct (so_fuel r) eqn:Ef; [exfalso|reflexivity].
+    apply (c02_settles_partial _ _ _ _ _ E eq_refl) in Ef.
+    pose proof (noisy_any _ _ _ I Hnw Ef). pose proof (Mb_bound s). lia.
+  Qed.
 End Pot.
+
+(* ================================================================== the theorems *)
+Theorem c02_settles_holds : stmt_c02_settles.
+Proof.
+  unfold stmt_c02_settles. intros c ops Hw.
+  unfold settled, wrun. rewrite wrun_from_app. set (sF := wfinal_from (cinit c) ops).
+  destruct (Inv_wfinal_from ops (cinit c) (Inv_cinit c)) as [IF LF].
+  { unfold wno_wrap in Hw. cbn. exact Hw. }
+  fold sF in IF, LF. cbn in LF.
+  assert (Hnw : NW sF) by (unfold NW, wno_wrap, two64 in *; lia).
+  cbn [wrun_from wstep].
+  destruct (settle stp sfuel (rounds_of sF + length (st_inbox (tr sF))) sF sobs0) as [s1 r] eqn:Es.
+  rewrite last_last. rewrite (settle_no_fuel _ _ _ IF Hnw Es). exact I.
+Qed.
+Print Assumptions c02_settles_holds.
+
+(* the two C02 theorems of ClientWakeProofs.v without the hypothesis `settled c ops` *)
+Theorem c02_dead_unconditional : forall c ops,
+  wno_wrap ops ->
+  let s := wfinal c (ops ++ [WSettle]) in
+  (exists a, finished s = Some (DErr a)) \/ dropped s = true ->
+  forall i k, nth_error (calls s) i = Some k -> is_live (c_phase k) = false.
+Proof. intros c ops Hw. exact (c02_dead_holds c ops Hw (c02_settles_holds c ops Hw)). Qed.
+Print Assumptions c02_dead_unconditional.
+
+Theorem c02_quiescent_unconditional : forall c ops,
+  wno_wrap ops ->
+  (1 <= cf_qcap c)%nat -> (1 <= cf_maxif c)%nat ->
+  let s := wfinal c (ops ++ [WSettle]) in
+  writable (tr s) = true -> st_inbox (tr s) = [] -> st_eof (tr s) = false ->
+  finished s = None -> dropped s = false ->
+  forall i k, nth_error (calls s) i = Some k -> is_live (c_phase k) = true ->
+    inflight s <> []
+    /\ (forall id w, In (id, w) (timers s) -> (now s < w)%N)
+    /\ (In (c_id k) (map fst (inflight s))
+        \/ length (inflight s) = max_if s).
+Proof.
+  intros c ops Hw Hq Hm. exact (c02_quiescent_holds c ops Hw Hq Hm (c02_settles_holds c ops Hw)).
+Qed.
+Print Assumptions c02_quiescent_unconditional.
